@@ -2,6 +2,7 @@ package sim
 
 import (
 	"fmt"
+	"regexp"
 	"sort"
 	"strings"
 	"testing"
@@ -45,7 +46,8 @@ var c14Exprs = []string{
 
 const c14Prelude = `DECLARE f FUNCTION (@p, @q) AS BEGIN IF @p IS NULL THEN RETURN @q; END IF; VAR @t := @p * 2; RETURN @t + @q; END;
 DECLARE usum AGGREGATE (list, @init DEFAULT 0) AS BEGIN VAR @t := @init; VAR @e; WHILE @e IN list DO IF @e IS NOT NULL THEN @t := @t + @e; END IF; END WHILE; RETURN @t; END;
-VAR @x := 'dog'; VAR @n := 5; VAR @f := 2.5; VAR @d := DATETIME('2012-02-03 09:18:15'); VAR @u;`
+VAR @x := 'dog'; VAR @n := 5; VAR @f := 2.5; VAR @d := DATETIME('2012-02-03 09:18:15'); VAR @u;
+DECLARE tv VIEW AS SELECT * FROM a;`
 
 type c14Stmt struct {
 	Src    string `json:"src"`
@@ -224,6 +226,21 @@ func genFnProbe(r *Rng) c14Stmt {
 	return c14Stmt{Src: fmt.Sprintf(from, fn, strings.Join(a, ", ")), Repeat: 2, Reads: true}
 }
 
+// dumps of the temporary tables: no generated statement changes tv or tt, so
+// every dump of one run must print the same
+const tvDumpSrc = "SELECT * FROM tv;"
+const ttDumpSrc = "SELECT * FROM tt; PRINT @b;"
+
+var reFromAX = regexp.MustCompile(`\bFROM a x\b`)
+var reFromA = regexp.MustCompile(`\bFROM a\b`)
+
+// onTempView lets a reading statement read the temporary view tv (a copy of
+// a) instead of the file table a.
+func onTempView(src string) string {
+	src = reFromAX.ReplaceAllString(src, "FROM tv x")
+	return reFromA.ReplaceAllString(src, "FROM tv a")
+}
+
 type c14 struct{}
 
 func init() { Register(c14{}) }
@@ -272,15 +289,23 @@ func (c14) Gen(seed uint64, tier string) *Scenario {
 		// every built-in function with arguments of every value class: variables,
 		// literals and typed cells of a temporary table are only read, so they must
 		// print the same afterwards
-		m.Stmts = append(m.Stmts, c14Stmt{Src: typedViewDecl, Repeat: 1})
+		m.Stmts = append(m.Stmts, c14Stmt{Src: typedViewDecl, Repeat: 1}, c14Stmt{Src: ttDumpSrc, Repeat: 1, Reads: true})
 		for i, np := 0, r.Range(10, 30); i < np; i++ {
 			m.Stmts = append(m.Stmts, genFnProbe(r))
 		}
-		m.Stmts = append(m.Stmts, c14Stmt{Src: "VAR @z1 := DATETIME('2030-01-01 00:00:00'); VAR @z2 := 'zzz' || 'y'; VAR @z3 := 12345 + 1; VAR @z4 := 1.25 * 2; SELECT * FROM tt; PRINT @b;", Repeat: 1, Reads: true})
+		m.Stmts = append(m.Stmts, c14Stmt{Src: "VAR @z1 := DATETIME('2030-01-01 00:00:00'); VAR @z2 := 'zzz' || 'y'; VAR @z3 := 12345 + 1; VAR @z4 := 1.25 * 2; ", Repeat: 1, Reads: true}, c14Stmt{Src: ttDumpSrc, Repeat: 1, Reads: true})
 		n = 0
 	}
+	useTv := n > 0 && r.Bool(0.5)
+	if useTv {
+		m.Stmts = append(m.Stmts, c14Stmt{Src: tvDumpSrc, Repeat: 1, Reads: true})
+	}
 	for i := 0; i < n; i++ {
-		m.Stmts = append(m.Stmts, genC14Stmt(r, m.Kind == "prefix"))
+		st := genC14Stmt(r, m.Kind == "prefix")
+		if useTv && st.Reads && r.Bool(0.6) {
+			st.Src = onTempView(st.Src)
+		}
+		m.Stmts = append(m.Stmts, st)
 	}
 	if m.Kind == "prefix" {
 		// the statement whose behaviour must not depend on the reading prefix
@@ -291,6 +316,9 @@ func (c14) Gen(seed uint64, tier string) *Scenario {
 		m.Stmts = append(m.Stmts, x)
 	}
 	m.Stmts = append(m.Stmts, c14Stmt{Src: "SELECT * FROM a; PRINT @x; PRINT @n; PRINT @f; PRINT @d; PRINT @u;", Repeat: 1, Reads: true})
+	if useTv {
+		m.Stmts = append(m.Stmts, c14Stmt{Src: tvDumpSrc, Repeat: 1, Reads: true})
+	}
 	m.Stmts = append(m.Stmts, c14Stmt{Src: "COMMIT;", Repeat: 1})
 	cpu := 1
 	if r.Bool(0.5) {
@@ -423,6 +451,26 @@ func (c14) Eval(t *testing.T, c *Case, dec func(int) *Decider) *Outcome {
 		for _, a := range astChanged {
 			o.viol(prop, "syntax-tree", "ast-mutated", fmt.Sprintf("[pool %s] executing a statement changed its syntax tree: %s", pol, a))
 		}
+		// (6) temporary tables that are only read print the same in every dump
+		for _, dsrc := range []string{tvDumpSrc, ttDumpSrc} {
+			first, have := "", false
+			for si, st := range meta.Stmts {
+				if st.Src != dsrc {
+					continue
+				}
+				d, ok := secs[fmt.Sprintf("%d.0", si+1)]
+				if !ok {
+					continue
+				}
+				if !have {
+					first, have = d, true
+				} else if d != first {
+					o.viol(prop, "stored-tables", "temporary-table-changed-by-reads", fmt.Sprintf("[pool %s] a temporary table that the statements in between only read prints differently afterwards: %s", pol, firstDiff(first, d)))
+				} else {
+					o.Stats.probe("temporary-table-dump-equal")
+				}
+			}
+		}
 		// (3) first and second execution agree
 		for si, st := range meta.Stmts {
 			if st.Repeat < 2 || !st.Reads {
@@ -457,8 +505,13 @@ func (c14) Eval(t *testing.T, c *Case, dec func(int) *Decider) *Outcome {
 		}
 	}
 	// (4) a reading prefix does not influence the statement after it
-	if meta.Kind == "prefix" && len(meta.Stmts) >= 4 {
-		xi := len(meta.Stmts) - 3
+	xi := -1
+	for i, st := range meta.Stmts {
+		if !st.Reads && st.Src != "COMMIT;" {
+			xi = i // the last statement that changes something
+		}
+	}
+	if meta.Kind == "prefix" && xi >= 1 {
 		alone := *sc
 		alone.Procs = append([]ProcSpec{}, sc.Procs...)
 		am := meta
@@ -473,7 +526,7 @@ func (c14) Eval(t *testing.T, c *Case, dec func(int) *Decider) *Outcome {
 		o.Runs++
 		sa, _, _ := shellSections(resA.Procs[0].Stdout)
 		sf, _, _ := shellSections(resF.Procs[0].Stdout)
-		for k := 0; k < 3; k++ {
+		for k := 0; k < len(meta.Stmts)-xi; k++ {
 			a := sa[fmt.Sprintf("%d.0", 1+k)]
 			f := sf[fmt.Sprintf("%d.0", 1+xi+k)]
 			if a != f {
